@@ -4,6 +4,7 @@ import FitModel.Gen.Profile
 import FitProofs.Crc
 import FitProofs.Codec
 import FitProps.C14
+import FitProofs.EncodeItems
 /-!
   C05 — Encode emits a well-formed, self-describing FIT stream.
 -/
@@ -131,5 +132,45 @@ theorem encodeScalar_length (arch : Endian) (pf : PField) (k : Sc) (v : Val) (bs
     · cases h
     · injection h with h; subst h; simp_all [enc_length]
   · cases h
+
+/-- **Self-describing records.** On a well-formed profile, what `Encode` writes for one message
+    (file_id, file_creator, timestamp_correlation and every single-valued container field go
+    through `encodeOne`) is the serialisation of a definition record followed by a data record of
+    the same local type carrying, per declared field, exactly the declared number of bytes; the
+    definition's counts and sizes fit their one-byte fields. -/
+theorem encode_one_self_describing (P : Profile) (hwf : ProfileWF P = true) (arch : Endian) (m : Msg) (bs : Bytes)
+    (h : encodeOne P arch m = .ok bs) :
+    ∃ (fs : List PField) (parts : List Bytes),
+      bs = serialize [.defn (defOf arch m.num fs) false, .data 0 parts []] ∧
+      FieldsFit (defOf arch m.num fs).fields parts ∧ DefnWF (defOf arch m.num fs) false :=
+  encodeOne_items P hwf arch m bs h
+
+/-- … and therefore the decoder's record loop, wherever it meets these bytes, reads them back as
+    exactly that definition and that data record (Framing). -/
+theorem encode_one_read_back (P : Profile) (hwf : ProfileWF P = true) (arch : Endian) (m : Msg) (bs : Bytes)
+    (h : encodeOne P arch m = .ok bs) :
+    ∃ its : List Item, bs = serialize its ∧
+      ∀ (limit fuel : Nat) (cont : DecSt → DP) (st : DecSt) (s : SpecSt) (tail : Bytes),
+        0 < st.defs.length → s.rest = bs ++ tail → st.n + bs.length ≤ limit →
+        match stepItems P st its with
+        | .ok st' =>
+          runSpecD limit (decodeFileData P limit (fuel + its.length) st cont) st.n s =
+            runSpecD limit (decodeFileData P limit fuel st' cont) (st.n + bs.length)
+              { s with rest := tail, taken := s.taken + bs.length } ∧ st'.n = st.n + bs.length
+        | .stop o =>
+          ∃ e, (runSpecD limit (decodeFileData P limit (fuel + its.length) st cont) st.n s).1 = .inl e ∧
+            e.err = (exitOf o).err := by
+  obtain ⟨its, hbs, hfit⟩ := encodeOne_self_describing P hwf arch m bs h
+  refine ⟨its, hbs, ?_⟩
+  intro limit fuel cont st s tail hd hs hl
+  subst hbs
+  exact run_items P limit cont its fuel st st.n s tail (hfit st hd) hs hl rfl
+
+/-- the hypotheses are satisfiable: the regenerated profile is well-formed and encodes a file_id
+    message (kernel-evaluated) -/
+example : ProfileWF Gen.profile = true ∧
+    (match encodeOne Gen.profile .le ⟨0, [.u 4, .u 1, .u 2, .u 3, .t 100 0 0, .u 5, .s []]⟩ with
+     | .ok bs => bs.length
+     | .error _ => 0) > 0 := by decide +kernel
 
 end Fit.Props.C05
